@@ -560,12 +560,13 @@ func getAntiAffinityKeysValue(node *corev1.Node, daemonsetSpec *datadoghqv1alpha
 }
 
 func newReplicaSetFromInstance(daemonset *datadoghqv1alpha1.ExtendedDaemonSet) (*datadoghqv1alpha1.ExtendedDaemonSetReplicaSet, error) {
-	labels := map[string]string{
-		datadoghqv1alpha1.ExtendedDaemonSetNameLabelKey: daemonset.Name,
-	}
+	labels := map[string]string{}
 	for key, val := range daemonset.Labels {
 		labels[key] = val
 	}
+	// the name label is what the controllers list replica sets and pods by: it always names this ExtendedDaemonSet,
+	// even if the object itself carries a label with the same key
+	labels[datadoghqv1alpha1.ExtendedDaemonSetNameLabelKey] = daemonset.Name
 	rs := &datadoghqv1alpha1.ExtendedDaemonSetReplicaSet{
 		ObjectMeta: metav1.ObjectMeta{
 			GenerateName: daemonset.Name + "-",
